@@ -48,7 +48,7 @@ def judge(rep, s, m):
         why = (why or "") + " reference tree not well-formed"
     if why:
         kindw = why.split(":")[0]
-        kc = S.known_class(s) or W.known_class(s)
+        kc = S.known_class(s)
         rep.violation(H.step_case(s, model=[list(mout), mtree]),
                       "%s.%s%r from tree %r — %s" % (s.kind, s.op[0], s.op[1:], [e[:2] for e in s.pre][:10], why),
                       found_input=True,
